@@ -280,8 +280,171 @@ def rule_R3(run, prog):
                        sample={"builder": mname, "parity": special or res})
 
 
+# ----------------------------------------------------------------------
+# which temperature reaches the thermal factor when the caller requests one
+class _TempFlow:
+    """Three-valued flow of the entry "T" of the parameter dictionaries through the body of a loop
+    over self.params, under the assumption that the temperature argument was given:
+    ARG = the requested temperature, OLD = the stored one, UNK = depends on the stored parameters."""
+
+    def __init__(self, arg, dictvar):
+        self.arg = arg
+        self.dicts = {dictvar: "OLD"}     # dict variable -> value of its "T" entry
+        self.env = {}
+        self.assigned = {}                # name -> list of values assigned
+        self.appended = []                # values of "T" of dictionaries appended to lists
+
+    def test(self, t):
+        tx = norm(t)
+        if tx == "%s is not None" % self.arg:
+            return True
+        if tx == "%s is None" % self.arg:
+            return False
+        return None
+
+    def ev(self, e):
+        if isinstance(e, ast.Name):
+            if e.id == self.arg:
+                return "ARG"
+            return self.env.get(e.id, "UNK")
+        if isinstance(e, ast.Subscript) and isinstance(e.value, ast.Name) and e.value.id in self.dicts \
+                and isinstance(e.slice, ast.Constant) and e.slice.value == "T":
+            return self.dicts[e.value.id]
+        if isinstance(e, ast.IfExp):
+            c = self.test(e.test)
+            if c is not None:
+                return self.ev(e.body if c else e.orelse)
+            a, b = self.ev(e.body), self.ev(e.orelse)
+            return a if a == b else "UNK"
+        if isinstance(e, ast.Call) and isinstance(e.func, ast.Attribute) and isinstance(e.func.value, ast.Name) \
+                and e.func.value.id in self.dicts and e.func.attr == "get" and e.args \
+                and isinstance(e.args[0], ast.Constant) and e.args[0].value == "T":
+            v = self.dicts[e.func.value.id]
+            return v if v == "ARG" else "UNK"
+        return "UNK"
+
+    def dict_of(self, e):
+        """'T' state when e evaluates to a (copy of a) tracked dictionary, else None"""
+        if isinstance(e, ast.Name) and e.id in self.dicts:
+            return self.dicts[e.id]
+        if isinstance(e, ast.Call):
+            if isinstance(e.func, ast.Attribute) and e.func.attr in ("copy", "deepcopy") and not e.args:
+                return self.dict_of(e.func.value)
+            if call_name(e) in ("dict", "copy", "deepcopy") and len(e.args) == 1:
+                return self.dict_of(e.args[0])
+        if isinstance(e, ast.Dict) and e.keys and e.keys[0] is None:
+            st = self.dict_of(e.values[0])
+            for k, v in zip(e.keys[1:], e.values[1:]):
+                if isinstance(k, ast.Constant) and k.value == "T":
+                    st = self.ev(v)
+            return st
+        return None
+
+    def run(self, stmts):
+        for s in stmts:
+            if isinstance(s, ast.Assign) and len(s.targets) == 1:
+                t = s.targets[0]
+                if isinstance(t, ast.Name):
+                    d = self.dict_of(s.value)
+                    if d is not None:
+                        self.dicts[t.id] = d
+                    else:
+                        v = self.ev(s.value)
+                        self.env[t.id] = v
+                        self.assigned.setdefault(t.id, []).append((v, s))
+                elif isinstance(t, ast.Subscript) and isinstance(t.value, ast.Name) and t.value.id in self.dicts \
+                        and isinstance(t.slice, ast.Constant) and t.slice.value == "T":
+                    self.dicts[t.value.id] = self.ev(s.value)
+            elif isinstance(s, ast.Expr) and isinstance(s.value, ast.Call) and isinstance(s.value.func, ast.Attribute):
+                c = s.value
+                recv = c.func.value
+                if isinstance(recv, ast.Name) and recv.id in self.dicts:
+                    if c.func.attr == "setdefault" and c.args and isinstance(c.args[0], ast.Constant) \
+                            and c.args[0].value == "T":
+                        if self.dicts[recv.id] != "ARG":
+                            self.dicts[recv.id] = "UNK"   # only written when the key is missing
+                    elif c.func.attr == "update":
+                        for kw in c.keywords:
+                            if kw.arg == "T":
+                                self.dicts[recv.id] = self.ev(kw.value)
+                        for a in c.args:
+                            if isinstance(a, ast.Dict):
+                                for k, v in zip(a.keys, a.values):
+                                    if isinstance(k, ast.Constant) and k.value == "T":
+                                        self.dicts[recv.id] = self.ev(v)
+                    elif c.func.attr == "pop" and c.args and isinstance(c.args[0], ast.Constant) \
+                            and c.args[0].value == "T":
+                        self.dicts[recv.id] = "UNK"
+                elif c.func.attr == "append" and c.args:
+                    d = self.dict_of(c.args[0])
+                    if d is not None:
+                        self.appended.append((d, s))
+            elif isinstance(s, ast.If):
+                c = self.test(s.test)
+                if c is True:
+                    self.run(s.body)
+                elif c is False:
+                    self.run(s.orelse)
+                else:
+                    d0, e0 = dict(self.dicts), dict(self.env)
+                    self.run(s.body)
+                    d1, e1 = self.dicts, self.env
+                    self.dicts, self.env = dict(d0), dict(e0)
+                    self.run(s.orelse)
+                    for k in set(d1) | set(self.dicts):
+                        a, b = d1.get(k), self.dicts.get(k)
+                        self.dicts[k] = a if a == b else ("UNK" if a is not None and b is not None else (a or b))
+                    for k in set(e1) | set(self.env):
+                        a, b = e1.get(k), self.env.get(k)
+                        self.env[k] = a if (a == b or b is None) else (b if a is None else "UNK")
+            elif isinstance(s, (ast.With, ast.Try)):
+                self.run(s.body)
+
+
+def _temperature_flow(run, rid, prog):
+    for mname, sink_kind in (("get_FTCorrelationFunction", "thermal-factor"), ("get_CorrelationFunction", "callee")):
+        f = prog.func(SD + mname)
+        args = [a.arg for a in f.node.args.args]
+        if "temperature" not in args:
+            raise AnalysisError("%s lost its temperature argument" % mname)
+        loops = [n for n in f.node.body if isinstance(n, ast.For) and norm(n.iter) == "self.params"
+                 and isinstance(n.target, ast.Name)]
+        if len(loops) != 1:
+            raise AnalysisError("%s: expected one loop over self.params, found %d" % (mname, len(loops)))
+        tf = _TempFlow("temperature", loops[0].target.id)
+        tf.run(loops[0].body)
+        if sink_kind == "thermal-factor":
+            tk = [n for n in ast.walk(f.node) if isinstance(n, ast.Assign) and norm(n.targets[0]) == "twokbt"]
+            names = {n.id for n in ast.walk(tk[0].value) if isinstance(n, ast.Name)} if tk else set()
+        else:
+            calls = [c for c in ast.walk(f.node) if isinstance(c, ast.Call) and call_name(c) == "get_FTCorrelationFunction"]
+            names = set()
+            for c in calls:
+                for kw in c.keywords:
+                    if kw.arg == "temperature":
+                        names |= {n.id for n in ast.walk(kw.value) if isinstance(n, ast.Name)}
+                for a in c.args[:1]:
+                    names |= {n.id for n in ast.walk(a) if isinstance(n, ast.Name)}
+        sinks = sorted(n for n in names if n in tf.assigned or n == "temperature")
+        if not sinks:
+            raise AnalysisError("%s: no temperature variable reaches the %s" % (mname, sink_kind))
+        bad = [(n, v, norm(s_)) for n in sinks if n in tf.assigned for v, s_ in tf.assigned[n] if v != "ARG"]
+        run.obligation(rid, "SpectralDensity." + mname, not bad, key="requested-temperature-wins",
+                       message="when a temperature is requested, the %s must use it; here it takes %s" %
+                               (sink_kind, [(n, {"OLD": "the stored temperature", "UNK": "a value that depends on "
+                                             "whether the parameters already store one"}[v], st) for n, v, st in bad]),
+                       loc=f.loc(bad[0] and loops[0]) if bad else f.loc(),
+                       sample={"method": mname, "sink": sinks, "values": {n: [v for v, _ in tf.assigned.get(n, [])] for n in sinks}})
+        if sink_kind == "callee":
+            badp = [norm(s_) for v, s_ in tf.appended if v != "ARG"]
+            run.obligation(rid, "SpectralDensity." + mname, bool(tf.appended) and not badp, key="recorded-temperature",
+                           message="the parameters handed to the new CorrelationFunction must record the requested "
+                                   "temperature (%s)" % badp, loc=f.loc(), sample={"appended": len(tf.appended)})
+
+
 def rule_R4(run, prog):
     rid = "C06-R4"
+    _temperature_flow(run, rid, prog)
     f = prog.func(SD + "get_FTCorrelationFunction")
     tk = [n for n in ast.walk(f.node) if isinstance(n, ast.Assign) and norm(n.targets[0]) == "twokbt"]
     ok = len(tk) == 1 and norm(tk[0].value) in ("2.0 * kB_int * temp", "2 * kB_int * temp")
